@@ -132,6 +132,30 @@ def _literal(v: ast.AST) -> bool:
     return False
 
 
+def _fold_arith(e: ast.AST, known: Dict[str, ast.AST]) -> Optional[ast.AST]:
+    import operator
+    ops = {ast.Add: operator.add, ast.Sub: operator.sub, ast.Mult: operator.mul, ast.FloorDiv: operator.floordiv, ast.Pow: operator.pow, ast.LShift: operator.lshift}
+
+    def ev(x):
+        if isinstance(x, ast.Constant) and isinstance(x.value, int) and not isinstance(x.value, bool):
+            return x.value
+        if isinstance(x, ast.Name) and x.id in known and isinstance(known[x.id], ast.Constant) and isinstance(known[x.id].value, int):
+            return known[x.id].value
+        if isinstance(x, ast.BinOp) and type(x.op) in ops:
+            a, b = ev(x.left), ev(x.right)
+            if a is None or b is None or (isinstance(x.op, (ast.Pow, ast.LShift)) and not (0 <= b <= 64)) or (isinstance(x.op, ast.FloorDiv) and b == 0):
+                return None
+            return ops[type(x.op)](a, b)
+        if isinstance(x, ast.UnaryOp) and isinstance(x.op, ast.USub):
+            a = ev(x.operand)
+            return None if a is None else -a
+        return None
+    if not any(isinstance(y, ast.Name) for y in ast.walk(e)):
+        return None  # plain literal arithmetic stays as written (`2 ** 31 - 1` is what the reference tree has)
+    v = ev(e)
+    return None if v is None else ast.copy_location(ast.Constant(value=v), e)
+
+
 def normalise(parsed: List[Tuple[str, ast.Module, bool]]) -> Dict[str, List[str]]:
     """parsed: (module short name, tree, is_package).  Rewrites the trees in place; returns a log per module."""
     ref_f, ref_g = reference()
@@ -188,6 +212,12 @@ def normalise(parsed: List[Tuple[str, ast.Module, bool]]) -> Dict[str, List[str]
             elif _literal(g[n][0]):
                 consts.setdefault(module, {})[n] = g[n][0]
                 log.setdefault(module, []).append(f"{module}:{n} = literal (folded)")
+            else:
+                # arithmetic over literals and constants folded just before (`_ROUND_UP = _BITS - 1`)
+                v = _fold_arith(g[n][0], consts.get(module, {}))
+                if v is not None:
+                    consts.setdefault(module, {})[n] = v
+                    log.setdefault(module, []).append(f"{module}:{n} = constant expression (folded)")
     meth_renames = {k: v for k, v in meth_renames.items() if v != "\0"}
 
     # ---- apply
